@@ -255,7 +255,7 @@ func c01ParseX(out string, probe string, attr string, last bool) (skel string, s
 func init() { streams["C01"] = runC01 }
 
 func runC01(r *Run) {
-	r.Imports = []string{"Model.Escape", "Model.Tok"}
+	r.Imports = []string{"Model.Escape", "Model.Tok", "Model.Hole"}
 	r.Rule("(esc-fn) every string up to length 3 (thorough 4) over {< > & \" ' ; # { } / = space a 3} plus entity words: html.EscapeString, escapeAttrValue and a serialised text node against the model's escape; " +
 		"(tok) the model's tokenizer fragment against x/net/html's tokenizer on every string up to length 4 (thorough 5) over {< > / = \" ' space a p 1 ! &} and on serialiser-shaped strings with hostile content; " +
 		"(sink) 16 sink positions (text, v-text, interpolated and bound attributes, class merge, v-if branch, v-for root and child, include props static and bound, slot prop, slot content, chain branch) x static neighbourhoods (plain, entity, quote, angle bracket, mustache-looking) x hostile values (exhaustive up to length 2, words, compositions): " +
@@ -325,6 +325,9 @@ func runC01(r *Run) {
 			return c
 		}, w) + `>x</p >`)
 	}
+	// ---------- the miniature evaluator of Model/Hole.v ----------
+	c01Mini(r)
+
 	// ---------- sink (oracle) ----------
 	var values []string
 	for _, s := range all {
